@@ -68,14 +68,25 @@ func Verif_C19_zero_cases() {
 // instants inside the period matches I * supply * interval / year up to one base unit of minting plus the 10^-18 truncation of I.
 func Verif_C19_linear() {
 	verif_knob("ignore_overflow", 1)
-	k, ctx, s, S := verifC19Setup([]int{kLin, kNo})
-	cfg := s.params.Minters[0].Config.GetCachedValue().(*types.LinearMinting)
-	start, end := s.params.StartTime, *s.params.Minters[0].EndTime
+	// the current period is the first one or a later one (then its start is the previous period's end, not the schedule start)
+	cur := verif_choice("cur", 2)
+	kinds := []int{kLin, kNo}
+	if cur == 1 {
+		kinds = []int{verif_choice("prevKind", 3), kLin, kNo}
+	}
+	k, ctx, s, S := verifC19Setup(kinds)
+	cfg := s.params.Minters[cur].Config.GetCachedValue().(*types.LinearMinting)
+	start, end := s.params.StartTime, *s.params.Minters[cur].EndTime
+	if cur == 1 {
+		start = *s.params.Minters[0].EndTime
+	}
 	verif_assume(int64(end.Sub(start)) <= 100*vYearNs)
 	t1 := verif_time_unit("t1", 1000000, vT0, vT1)
 	t2 := verif_time_unit("t2", 1000000, vT0, vT1)
 	verif_assume(!t1.Before(start) && t1.Before(t2) && t2.Before(end))
-	ctx = verifInstall(k, s, verifFreshState(s), t1)
+	st := verifFreshState(s)
+	st.SequenceId = uint32(cur + 1)
+	ctx = verifInstall(k, s, st, t1)
 	inf, err := k.GetCurrentInflation(ctx)
 	verif_assert(err == nil, "inflation is defined inside the period")
 	I := verif_dec_rawint(inf)
@@ -85,8 +96,8 @@ func Verif_C19_linear() {
 	verif_assert(I.Equal(R.Quo(S)), "inflation = trunc18(trunc18(amount * year / period) / supply)")
 	// cross-check with the real minter: coins minted over [t1, t2] from the same carry
 	carry := verif_dec_range("carry", "0", "999999999999999999")
-	m1 := s.params.Minters[0].AmountToMint(verifLogger{}, start, t1).Add(carry).TruncateInt()
-	m2 := s.params.Minters[0].AmountToMint(verifLogger{}, start, t2).Add(carry).TruncateInt()
+	m1 := s.params.Minters[cur].AmountToMint(verifLogger{}, start, t1).Add(carry).TruncateInt()
+	m2 := s.params.Minters[cur].AmountToMint(verifLogger{}, start, t2).Add(carry).TruncateInt()
 	dM := m2.Sub(m1)
 	dns := int64(t2.Sub(t1))
 	lhs := dM.MulRaw(vYearNs).Mul(vE18).Sub(I.Mul(S).MulRaw(dns))
@@ -98,17 +109,27 @@ func Verif_C19_linear() {
 // Exponential period: I = trunc18(trunc18(a_n * year / step) / supply) with a_n the amount of the step containing the block time.
 func Verif_C19_exponential() {
 	verif_knob("ignore_overflow", 1)
-	k, ctx, s, S := verifC19Setup([]int{kExp, kNo})
-	cfg := s.params.Minters[0].Config.GetCachedValue().(*types.ExponentialStepMinting)
-	start, end := s.params.StartTime, *s.params.Minters[0].EndTime
+	cur := verif_choice("cur", 2)
+	kinds := []int{kExp, kNo}
+	if cur == 1 {
+		kinds = []int{verif_choice("prevKind", 3), kExp, kNo}
+	}
+	k, ctx, s, S := verifC19Setup(kinds)
+	cfg := s.params.Minters[cur].Config.GetCachedValue().(*types.ExponentialStepMinting)
+	start, end := s.params.StartTime, *s.params.Minters[cur].EndTime
+	if cur == 1 {
+		start = *s.params.Minters[0].EndTime
+	}
 	T := verif_time("T")
 	verif_assume(!T.Before(start) && T.Before(end))
 	K := int64(2)
 	if verif_tier() > 0 {
 		K = 3
 	}
-	s.assumeSteps(0, T, K)
-	ctx = verifInstall(k, s, verifFreshState(s), T)
+	s.assumeSteps(cur, T, K)
+	st := verifFreshState(s)
+	st.SequenceId = uint32(cur + 1)
+	ctx = verifInstall(k, s, st, T)
 	verif_knob("unroll", 8)
 	inf, err := k.GetCurrentInflation(ctx)
 	verif_assert(err == nil, "inflation is defined inside the period")
